@@ -12,7 +12,7 @@ Lemma parse_cmd_sub_unfold ps c o t subs args : c_sub c = Some (o, t, subs) ->
     | inl er => PErr er
     | inr fs => match sub with
                 | Some tv => POk (TV (c_name c) fs (Some (Some tv)))
-                | None => if o then POk (TV (c_name c) fs (Some None)) else PErr (EMissing [60;67;79;77;77;65;78;68;62])
+                | None => if o then POk (TV (c_name c) fs (Some None)) else PErr (EMissing SUB_NAME_REQ)
                 end
     end
   end.
@@ -37,6 +37,6 @@ Theorem parse_cmd_sub_missing ps c o t subs : c_sub c = Some (o, t, subs) ->
   parse_cmd ps c [] =
   match build_fields (c_args c) [] with
   | inl er => PErr er
-  | inr fs => if o then POk (TV (c_name c) fs (Some None)) else PErr (EMissing [60;67;79;77;77;65;78;68;62])
+  | inr fs => if o then POk (TV (c_name c) fs (Some None)) else PErr (EMissing SUB_NAME_REQ)
   end.
 Proof. intros Hs. rewrite (parse_cmd_sub_unfold ps c o t subs _ Hs). reflexivity. Qed.
